@@ -156,6 +156,10 @@ func (fr *FnRun) instr(st *State, in ssa.Instruction, depth int) {
 		d.fnv, d.args = fr.evalCallee(st, x.Common())
 		st.defers = append(st.defers, d)
 	case *ssa.Go:
+		// a `go` statement is not executed, but call-site assertions attached to the started function
+		// are checked at the statement (what must hold when the goroutine is started)
+		fr.siteArgs = nil
+		fr.checkCallSite(st, x, x.Common())
 		st.events = append(st.events, "go:"+x.Common().String())
 	case *ssa.MakeMap:
 		mt := under(x.Type()).(*types.Map)
